@@ -314,10 +314,12 @@ type session struct {
 	teeMu    sync.Mutex
 	kaMs     int
 	pending  []func() // joins of concurrent snapshot calls
+	agDone   chan struct{}
+	agErr    error
 }
 
 func newSession(reqPat, respPat, bufioMode, kaMs string) (*session, string) {
-	s := &session{diag: &nopDiag{}, aborted: make(chan struct{}), collDone: make(chan struct{})}
+	s := &session{diag: &nopDiag{}, aborted: make(chan struct{}), collDone: make(chan struct{}), agDone: make(chan struct{})}
 	s.kaMs = int(atoi(kaMs))
 	r1, w1 := io.Pipe() // server -> agent
 	r2, w2 := io.Pipe() // agent -> server
@@ -338,6 +340,7 @@ func newSession(reqPat, respPat, bufioMode, kaMs string) (*session, string) {
 	if err := s.ag.Start(); err != nil {
 		return s, "err:agent"
 	}
+	go func() { s.agErr = s.ag.Wait(); close(s.agDone) }() // what an agent process does right after Start
 	if err := s.srv.Start(); err != nil {
 		return s, "err:start"
 	}
@@ -384,9 +387,9 @@ func (s *session) finish() string {
 	s.pending = nil
 	err := s.srv.Stop()
 	<-s.collDone
-	s.ag.Wait()
+	<-s.agDone
 	status := "ok"
-	if err != nil {
+	if err != nil || s.agErr != nil {
 		status = "err"
 	}
 	select {
